@@ -158,6 +158,14 @@ def rule_framing(ctx: Ctx):
             # first, so for a chunk without delimiter (one piece) the carry-over is the piece without the previous carry-over
             ok = not _same_statement(nl[0].node, pre[0].node)
         r.ob(ok, lambda: mk_finding("FR-1", spec, None, {}, p, "the last (unterminated) piece must become the new carry-over; assignments: %s" % [e.brief() for e in nl], extra="carry"))
+        # the carry-over is in place before the first line of the chunk is handed on: the subscriber may complete the source, or push the
+        # next chunk, from inside that call, and the completion flush / the next chunk must find this chunk's remainder
+        ems_ = [k for k, e in enumerate(p.trace) if e.k == "emit" and e.method == "on_next"]
+        if nl and ems_:
+            r.ob(p.trace.index(nl[-1]) < ems_[0], lambda: mk_finding(
+                "FR-1", spec, None, {}, p, "the carry-over is updated after the lines of the chunk were emitted: a subscriber that completes the source (or feeds the "
+                "next chunk) when it sees a line finds the remainder of the previous chunk -- the real tail is lost, an old one is delivered again",
+                node=nl[-1].node, extra="carry-before-emit"))
         # complete lines: all pieces but the last, each emitted once, in order
         loops = [e for e in p.trace if e.k == "loopiter"]
         if loops:
